@@ -464,3 +464,10 @@ PROPS['C08']['verus'] = [{'tmpl': 'vsign.rs.tmpl', 'obligations': ['lemma_item_t
 PROPS['C08']['functions'] = PROPS['C08']['functions'] + [VSIGN_VERUS_FNS]
 PROPS['C08']['assumptions'] = PROPS['C08']['assumptions'] + [A_VSIGN_VERUS,
     'UNBOUNDED part (Verus, contracts/c08_transfer.rs): lemma_c08_pages_arrive_bit_exact - from ANY settled state in which the sign accepts pixels (settled = nothing buffered or counted outside a transfer; lemma_step_settled: every step preserves it, the blank state has it), feeding the machine `step` the message sequence C09 prescribes (ReceivePixels request; every page as consecutive chunks of <= 16 bytes at offsets 0, 16, 32, ... restarting per page; the chunk count; PixelsComplete) makes it hold EXACTLY the byte images of the pages sent, in order (contents, not just counts), in state PageLoaded / ShowingPages - for page lists of any length >= 1 and pages of any size up to 65536 bytes that match the configured dimensions, total chunks < 65536. `step` is what the real VirtualSign::process_message is proved equal to in the same file; that the real controller emits that sequence is C09/C10 (Kani, bounded page shapes) - so the bit-exactness statement is unbounded on the sign side and on the composition, and bounded only where C09 is. c08_lemma_is_not_vacuous instantiates it (90x7 sign, two 96-byte pages)']
+
+# ---- C14: native bus domain (added after round 6: a bus that keeps state between messages, C14-m9, is invisible to per-step proofs from a fresh bus)
+PROPS['C14']['tools'] = [{'kind': 'premise', 'name': 'virtual-bus-has-no-state', 'file': 'libs/testing/src/virtual_sign_bus.rs', 'struct': 'VirtualSignBus',
+                          'fields': ["signs: Vec<VirtualSign<'a>>"],
+                          'forbid': [r'\bCell\s*<', r'\bRefCell\s*<', r'\bstatic\s+(mut\s+)?[A-Z_]+\s*:', r'thread_local!', r'\bAtomic[A-Z]\w*', r'\bMutex\b', r'\bRwLock\b', r'\bOnce(Cell|Lock)\b', r'lazy_static!', r'\bunsafe\b'],
+                          'text': 'a VirtualSignBus is exactly its list of signs: nothing but the signs themselves is carried from one message to the next, which is what lets the bus-level statements be proved per message from an arbitrary list of sign states'},
+                         {'kind': 'witness', 'domains': ['bus'], 'bound': '3000 random conversations (x10 thorough) of 40 messages on a bus of 1..4 signs with distinct addresses drawn from {0, 1, 3, 6, 16, 32, 0x7F, 0xFFFF} (addresses that coincide with chunk offsets / counts included) and mixed flip styles: interleaved configuration / pixel transfers to several signs at once, messages for absent addresses; after every message every sign of the bus must equal the same sign driven alone with the same messages, and the reply must be that of the one sign that answers'}]
